@@ -120,7 +120,7 @@ Theorem end_failures_surface : forall g scs sched orc t th r e,
   In e (trace g scs sched orc t) -> ent_end e = true ->
   (eout e = OPanic -> rret r = RetPanic) /\
   (eout e = OFail -> rbody r <> Some BGoexit ->
-     (ecall e = CCommit -> rret r = RetErr (ECommit DrvCommit)) /\
+     (ecall e = CCommit -> rret r = RetErr (ECommit (DrvCommit (eval e)))) /\
      (ecall e = CRollback -> reports_rollback_failure (rret r) = true)) /\
   (eout e = OFail -> rbody r = Some BGoexit -> rret r = RetNever).
 Proof. intros g scs sched orc t th r e H. exact (end_failures_surface_l g scs sched orc t th H r e). Qed.
@@ -135,7 +135,7 @@ Theorem panic_rolls_back_and_errors : forall g scs sched orc t th r,
   (rself r = false -> exists pre e, trace g scs sched orc t = pre ++ [e] /\ ecall e = CRollback /\
      rret r = match eout e with
               | OOk => RetErr (ERecover None)
-              | OFail => RetErr (ERecover (Some DrvRollback))
+              | OFail => RetErr (ERecover (Some (DrvRollback (eval e))))
               | OPanic => RetPanic
               end).
 Proof. intros g scs sched orc t th r H. exact (panic_is_reported_l g scs sched orc t th H r). Qed.
@@ -148,7 +148,7 @@ Theorem body_error_is_returned : forall g scs sched orc t th r b,
   exists pre e, trace g scs sched orc t = pre ++ [e] /\ ecall e = CRollback /\
     rret r = match eout e with
              | OOk => RetErr (EBody b)
-             | OFail => RetErr (ETxFailed b DrvRollback)
+             | OFail => RetErr (ETxFailed b (DrvRollback (eval e)))
              | OPanic => RetPanic
              end.
 Proof. intros g scs sched orc t th r b H. exact (body_error_returned_l g scs sched orc t th H r b). Qed.
@@ -176,7 +176,9 @@ Proof. intros g scs sched orc t th r H. exact (statements_in_order_l g scs sched
 Print Assumptions statements_in_order_at_most_once.
 
 (* Every statement of a transaction runs on the transaction's connection (the one that served
-   its Begin), never on the pool; and every driver call is made on behalf of some transaction. *)
+   its Begin), never on the pool; and every driver call is made while some transaction is running
+   ([calls_of]: including the Begins database/sql itself gave up and repeated on another
+   connection after driver.ErrBadConn — [trace] leaves those out). *)
 Theorem own_connection : forall g scs sched orc t th,
   thread_of g scs sched orc t th ->
   Forall (fun e => econn e = sconn (tsc th)) (trace g scs sched orc t).
@@ -186,7 +188,7 @@ Print Assumptions own_connection.
 Theorem every_call_is_somebodys : forall g scs sched orc e,
   In e (wlog (exec g scs sched orc)) ->
   exists th, nth_error (wthreads (exec g scs sched orc)) (etid e) = Some th /\
-             In e (trace g scs sched orc (etid e)).
+             In e (calls_of (etid e) (wlog (exec g scs sched orc))).
 Proof. exact every_call_is_somebodys_l. Qed.
 Print Assumptions every_call_is_somebodys.
 
@@ -211,7 +213,8 @@ Print Assumptions lost_connections.
 Theorem driver_script_is_followed : forall g scs sched orc,
   worc (exec g scs sched orc) = skipn (length (wlog (exec g scs sched orc))) orc /\
   forall i e, nth_error (wlog (exec g scs sched orc)) i = Some e ->
-              eout e = honoured (ecall e) (rout (nth i orc dflt)).
+              eout e = honoured (ecall e) (rout (nth i orc dflt)) /\
+              eval e = val_of (ecall e) (eout e) (rval (nth i orc dflt)).
 Proof. exact script_followed_l. Qed.
 Print Assumptions driver_script_is_followed.
 
@@ -224,7 +227,7 @@ Theorem transactions_do_not_interfere : forall g scs sched orc t,
   exists orc_t, forall x,
     let W := exec g scs sched orc in
     let W1 := exec g scs (only t sched) (orc_t ++ x) in
-    state_of W1 t = state_of W t /\ wlog W1 = proj t (wlog W) /\ worc W1 = x.
+    state_of W1 t = state_of W t /\ wlog W1 = calls_of t (wlog W) /\ worc W1 = x.
 Proof. intros g scs sched orc t. exact (solo_l ret_of g scs sched orc t). Qed.
 Print Assumptions transactions_do_not_interfere.
 
@@ -265,46 +268,47 @@ Print Assumptions check_means_the_property.
 
 (* ---- non-vacuity: concrete runs meeting the hypotheses ------------------------------- *)
 Definition st (m : meth) (f : onfail) : step := mkStep (AStmt m true) f.
-Definition ok : reply := mkReply OOk false.
-Definition fl : reply := mkReply OFail false.
-Definition pn : reply := mkReply OPanic false.
-Definition sc_of (steps : list step) (f : fin) : script := mkScript true false true true 1 steps f 0.
+Definition ok : reply := mkReply OOk false vgen.
+Definition fl : reply := mkReply OFail false vgen.
+Definition bad : reply := mkReply OFail false (mkVal VBadConn MBare).
+Definition pn : reply := mkReply OPanic false vgen.
+Definition sc_of (steps : list step) (f : fin) : script := mkScript true false true true 1 [] steps f 0.
 
 (* three statements, the second fails in the driver and the body returns that error; the
    rollback fails too *)
 Example ex_stmt_fails :
   let W := exec true [sc_of [st MExec FStop; st MQuery FStop; st MExec FStop] RNil] [0; 0; 0]%nat [ok; ok; fl; fl] in
-  wlog W = [mkEnt 0 1 CBegin OOk; mkEnt 0 1 (CStmt 0 KExec) OOk; mkEnt 0 1 (CStmt 1 KQuery) OFail;
-            mkEnt 0 1 CRollback OFail] /\
-  map tst (wthreads W) = [TDone (mkRes 1 (Some (BErr (BStmt 1))) (RetErr (ETxFailed (BStmt 1) DrvRollback)) false)].
+  wlog W = [mkEnt 0 1 CBegin OOk vgen; mkEnt 0 1 (CStmt 0 KExec) OOk vgen; mkEnt 0 1 (CStmt 1 KQuery) OFail vgen;
+            mkEnt 0 1 CRollback OFail vgen] /\
+  map tst (wthreads W) = [TDone (mkRes 1 (Some (BErr (BStmt 1 vgen))) (RetErr (ETxFailed (BStmt 1 vgen) (DrvRollback vgen))) false)].
 Proof. vm_compute. auto. Qed.
 
 (* an ignored failure of a prepared statement, then a panic; the rollback panics as well: the call
    panics and the connection is lost *)
 Example ex_panic_and_rollback_panics :
   let W := exec true [sc_of [st MPrep FIgnore] RPanic] [0; 0; 0]%nat [ok; ok; fl; pn] in
-  wlog W = [mkEnt 0 1 CBegin OOk; mkEnt 0 1 (CStmt 0 KPrepare) OOk; mkEnt 0 1 (CStmt 0 KStmtExec) OFail;
-            mkEnt 0 1 CRollback OPanic] /\
+  wlog W = [mkEnt 0 1 CBegin OOk vgen; mkEnt 0 1 (CStmt 0 KPrepare) OOk vgen; mkEnt 0 1 (CStmt 0 KStmtExec) OFail vgen;
+            mkEnt 0 1 CRollback OPanic vgen] /\
   map tst (wthreads W) = [TDone (mkRes 1 (Some BPanic) RetPanic false)] /\ wleaks W = 1.
 Proof. vm_compute. auto. Qed.
 
 (* a body whose commit fails *)
 Example ex_commit_fails :
   let W := exec true [sc_of [st MExec FStop] RNil] [0; 0; 0]%nat [ok; ok; fl] in
-  map tst (wthreads W) = [TDone (mkRes 1 (Some BNil) (RetErr (ECommit DrvCommit)) false)].
+  map tst (wthreads W) = [TDone (mkRes 1 (Some BNil) (RetErr (ECommit (DrvCommit vgen))) false)].
 Proof. vm_compute. reflexivity. Qed.
 
 Example ex_begin_fails :
   let W := exec true [sc_of [st MExec FStop] RNil] [0; 0]%nat [fl] in
-  wlog W = [mkEnt 0 1 CBegin OFail] /\ map tst (wthreads W) = [TDone (mkRes 0 None (RetErr EBegin) false)].
+  wlog W = [mkEnt 0 1 CBegin OFail vgen] /\ map tst (wthreads W) = [TDone (mkRes 0 None (RetErr (EBegin vgen)) false)].
 Proof. vm_compute. auto. Qed.
 
 (* the context becomes done WHILE Begin is in flight: the transaction exists, the body runs, its
    statement is refused by database/sql, the transaction is rolled back (seeded change C14-4
    returned before the deferred function was registered) *)
 Example ex_cancelled_during_begin :
-  let W := exec true [sc_of [st MExec FStop] RNil] [0; 0; 0]%nat [mkReply OOk true] in
-  wlog W = [mkEnt 0 1 CBegin OOk; mkEnt 0 1 CRollback OOk] /\
+  let W := exec true [sc_of [st MExec FStop] RNil] [0; 0; 0]%nat [mkReply OOk true vgen] in
+  wlog W = [mkEnt 0 1 CBegin OOk vgen; mkEnt 0 1 CRollback OOk vgen] /\
   map tst (wthreads W) = [TDone (mkRes 1 (Some (BErr (BCtx 0))) (RetErr (EBody (BCtx 0))) false)].
 Proof. vm_compute. auto. Qed.
 
@@ -312,7 +316,7 @@ Proof. vm_compute. auto. Qed.
    is not bound to the context: db.Begin()) *)
 Example ex_cancelled_but_commits :
   let W := exec true [sc_of [st MExec FIgnore; mkStep ACancel FStop; st MExec FIgnore] RNil] [0; 0; 0; 0; 0]%nat [] in
-  wlog W = [mkEnt 0 1 CBegin OOk; mkEnt 0 1 (CStmt 0 KExec) OOk; mkEnt 0 1 CCommit OOk] /\
+  wlog W = [mkEnt 0 1 CBegin OOk vgen; mkEnt 0 1 (CStmt 0 KExec) OOk vgen; mkEnt 0 1 CCommit OOk vgen] /\
   map tst (wthreads W) = [TDone (mkRes 1 (Some BNil) (RetErr ENil) false)].
 Proof. vm_compute. auto. Qed.
 
@@ -320,7 +324,7 @@ Proof. vm_compute. auto. Qed.
    statement and Transact's own Commit are answered sql.ErrTxDone *)
 Example ex_body_commits_itself :
   let W := exec true [sc_of [mkStep ASelfCommit FStop; st MExec FIgnore] RNil] [0; 0; 0; 0]%nat [] in
-  wlog W = [mkEnt 0 1 CBegin OOk; mkEnt 0 1 CCommit OOk] /\
+  wlog W = [mkEnt 0 1 CBegin OOk vgen; mkEnt 0 1 CCommit OOk vgen] /\
   map tst (wthreads W) = [TDone (mkRes 1 (Some BNil) (RetErr (ECommit TxDone)) true)].
 Proof. vm_compute. auto. Qed.
 
@@ -328,13 +332,13 @@ Proof. vm_compute. auto. Qed.
    the body of the first (its quanta 2,2,2 lie inside transaction 0): each on its own connection,
    each ended once *)
 Example ex_interleaved_and_nested :
-  let scs := [mkScript true false true true 1 [st MExec FStop; mkStep ANop FStop; st MExec FStop] RErr 0;
-              mkScript false false true true 2 [st MQuery FStop] RNil 0;
-              mkScript true false true true 3 [st MExec FStop] RPanic 0] in
+  let scs := [mkScript true false true true 1 [] [st MExec FStop; mkStep ANop FStop; st MExec FStop] (RErr vgen) 0;
+              mkScript false false true true 2 [] [st MQuery FStop] RNil 0;
+              mkScript true false true true 3 [] [st MExec FStop] RPanic 0] in
   let W := exec true scs [0; 1; 0; 0; 2; 2; 2; 1; 0; 0; 1]%nat [] in
-  proj 0 (wlog W) = [mkEnt 0 1 CBegin OOk; mkEnt 0 1 (CStmt 0 KExec) OOk; mkEnt 0 1 (CStmt 2 KExec) OOk; mkEnt 0 1 CRollback OOk] /\
-  proj 1 (wlog W) = [mkEnt 1 2 CBegin OOk; mkEnt 1 2 (CStmt 0 KQuery) OOk; mkEnt 1 2 CCommit OOk] /\
-  proj 2 (wlog W) = [mkEnt 2 3 CBegin OOk; mkEnt 2 3 (CStmt 0 KExec) OOk; mkEnt 2 3 CRollback OOk] /\
+  proj 0 (wlog W) = [mkEnt 0 1 CBegin OOk vgen; mkEnt 0 1 (CStmt 0 KExec) OOk vgen; mkEnt 0 1 (CStmt 2 KExec) OOk vgen; mkEnt 0 1 CRollback OOk vgen] /\
+  proj 1 (wlog W) = [mkEnt 1 2 CBegin OOk vgen; mkEnt 1 2 (CStmt 0 KQuery) OOk vgen; mkEnt 1 2 CCommit OOk vgen] /\
+  proj 2 (wlog W) = [mkEnt 2 3 CBegin OOk vgen; mkEnt 2 3 (CStmt 0 KExec) OOk vgen; mkEnt 2 3 CRollback OOk vgen] /\
   map tinuse (wthreads W) = [1; 0; 2].
 Proof. vm_compute. auto. Qed.
 
@@ -343,4 +347,24 @@ Example ex_open_transaction :
   let W := exec true [sc_of [st MExec FStop; st MExec FStop] RNil] [0; 0]%nat [] in
   map tst (wthreads W) = [TBody 1 [st MExec FStop] false false] /\ count ent_end (wlog W) = 0%nat /\
   open_conn 1 (wthreads W) = 1%nat.
+Proof. vm_compute. auto. Qed.
+
+(* sentinel error values.  The second statement fails with the bare driver.ErrBadConn and the body
+   returns it: the transaction is rolled back all the same (seeded change C14-5 skipped the
+   rollback: "the server dropped the transaction with the connection anyway") *)
+Example ex_badconn_statement_is_rolled_back :
+  let W := exec true [sc_of [st MExec FStop; st MExec FStop] RNil] [0; 0; 0]%nat [ok; ok; bad] in
+  wlog W = [mkEnt 0 1 CBegin OOk vgen; mkEnt 0 1 (CStmt 0 KExec) OOk vgen;
+            mkEnt 0 1 (CStmt 1 KExec) OFail (mkVal VBadConn MBare); mkEnt 0 1 CRollback OOk vgen] /\
+  map tst (wthreads W) =
+  [TDone (mkRes 1 (Some (BErr (BStmt 1 (mkVal VBadConn MBare)))) (RetErr (EBody (BStmt 1 (mkVal VBadConn MBare)))) false)].
+Proof. vm_compute. auto. Qed.
+
+(* Begin answered driver.ErrBadConn twice: database/sql repeats it on other connections (7, 8); the
+   transaction's own trace starts at the Begin that stood, on connection 9 *)
+Example ex_begin_repeated_by_database_sql :
+  let W := exec true [mkScript true false true true 9 [7; 8] [st MExec FStop] RNil 0] [0; 0; 0]%nat [bad; bad] in
+  wlog W = [mkEnt 0 7 CBeginRetry OFail (mkVal VBadConn MBare); mkEnt 0 8 CBeginRetry OFail (mkVal VBadConn MBare);
+            mkEnt 0 9 CBegin OOk vgen; mkEnt 0 9 (CStmt 0 KExec) OOk vgen; mkEnt 0 9 CCommit OOk vgen] /\
+  proj 0 (wlog W) = [mkEnt 0 9 CBegin OOk vgen; mkEnt 0 9 (CStmt 0 KExec) OOk vgen; mkEnt 0 9 CCommit OOk vgen].
 Proof. vm_compute. auto. Qed.
